@@ -232,9 +232,9 @@ pub fn uni_agree<const REP: u8, const ALG: u8, const H: usize, const N: usize, c
 
 /// canary: must FAIL
 pub fn uni_canary() {
-    let i = inputs::<2, 3, 2, 0>();
+    let i = inputs::<2, 2, 2, 0>();
     let mut m = small_matcher(i.cfg.clone(), 8);
-    let r = call::<2, SUBSTRING, false, 3, 2>(&mut m, &i, &mut Vec::new());
+    let r = call::<2, EXACT, false, 2, 2>(&mut m, &i, &mut Vec::new());
     std::mem::forget(m);
     assert!(r.is_none());
 }
